@@ -167,6 +167,8 @@ def run(tier):
             sizes += [(4, small), (7, ([8], [8]))]
         elif ci % 3 == 0:
             sizes += [(4, ([8], [2, 8]))]
+        elif c["strategy"] == "threshold":
+            sizes += [(4, ([8], [8]))]
         for n, (ws, cs_) in sizes:
             if quick and n == 3 and ci % 4 != 0 and not c["emergency"]:
                 continue
